@@ -152,7 +152,23 @@ pub fn check_input(ctx: &mut Ctx, b: &[u8], paths: &[Vec<PathEl>]) {
         }
     }
     // checked iterators: every yielded item is a member of the strict model (C12's one-directional part)
+    // (the iterator model is kept to nesting <= 64: deeper inputs are judged through get* only)
+    let mut depth = 0i32;
+    let mut max_depth = 0i32;
+    for c in b {
+        match c {
+            b'[' | b'{' => {
+                depth += 1;
+                max_depth = max_depth.max(depth);
+            }
+            b']' | b'}' => depth -= 1,
+            _ => {}
+        }
+    }
     for object in [false, true] {
+        if max_depth > 60 {
+            break;
+        }
         let m = crate::mon::c12::model(b, object);
         let mut i = 0;
         let mut bad: Option<String> = None;
@@ -316,6 +332,18 @@ impl Check for C14 {
             let d = doc::gen_doc(&mut r, &o);
             emit(Case::with("rawkey", d, &[r.next() as i64]));
         }
+        // a sibling nested beyond the limit (255) with garbage deep inside, the target behind it
+        {
+            let mut idx = 0u64;
+            for depth in [250usize, 255, 256, 257, 300, 600] {
+                for junk in 0..10i64 {
+                    idx += 1;
+                    if g.mine(idx) && (g.tier == Tier::Thorough || junk % 3 == (depth % 3) as i64) {
+                        emit(Case::with("deep-sibling", vec![], &[depth as i64, junk]));
+                    }
+                }
+            }
+        }
         if g.shard == 0 {
             for s in [
                 r#"{xx"a":1}"#, r#"{"b":2 xx,"a":1}"#, r#"[1 x,2]"#, r#"{"b":"\uZZZZ","a":1}"#, r#"{"b":tru,"a":1}"#, r#"{"b":[1,],"a":1}"#,
@@ -347,6 +375,24 @@ impl Check for C14 {
                 ctx.class("mode:every-prefix-and-substitution");
                 ctx.sample("every-prefix-and-subst");
             }
+            "deep-sibling" => {
+                let (depth, junk) = (c.p(0) as usize, c.p(1) as usize);
+                let inner: &[u8] = [&b"oops"[..], b"1 2", b"tru", b"\"a\nb\"", b"\"\\q\"", b"01", b"1,", b"{\"k\" 1}", b"}{", b"7"][junk % 10];
+                let mut m = b"{\"a\":".to_vec();
+                for i in 0..depth {
+                    m.extend_from_slice(if i % 2 == 0 { b"[" } else { b"{\"n\":" });
+                }
+                m.extend_from_slice(inner);
+                for i in (0..depth).rev() {
+                    m.extend_from_slice(if i % 2 == 0 { b"]" } else { b"}" });
+                }
+                m.extend_from_slice(b",\"b\":1,\"c\":[true,{\"d\":null}]}");
+                let paths = vec![vec![PathEl::Key("b".into())], vec![PathEl::Key("c".into()), PathEl::Idx(1), PathEl::Key("d".into())], vec![PathEl::Key("a".into())]];
+                ctx.nontrivial();
+                ctx.class("mode:deep-sibling");
+                check_input(ctx, &m, &paths);
+                ctx.sample("deep-sibling");
+            }
             "rawkey" => {
                 ctx.nontrivial();
                 raw_key_case(ctx, d, c.p(0) as u64);
@@ -369,6 +415,6 @@ impl Check for C14 {
         }
     }
     fn required_classes(&self, _b: &str, _t: Tier) -> Vec<&'static str> {
-        vec!["returned:value", "returned:error", "returned:iter-item", "mode:every-prefix-and-substitution", "mode:mutated", "mode:raw-byte-in-key"]
+        vec!["returned:value", "returned:error", "returned:iter-item", "mode:every-prefix-and-substitution", "mode:mutated", "mode:raw-byte-in-key", "mode:deep-sibling"]
     }
 }
